@@ -381,6 +381,22 @@ def run_e(case):
             pk = list(base)
             pk.insert(min(len(pk), i + gap), base[i])
             run_pk(pk, {"layer": "E", "class": cname, "variant": "duplicate", "reordered": False})
+    # late retransmissions in a long stream: 5-byte segments (hundreds per direction); a copy of every 9th segment is
+    # captured again ~70, ~150 same-direction segments later and at the very end of the capture
+    fine = scen.tls_packets(conn, mss=5)
+    fidx = [i for i, p in enumerate(fine) if p.payload]
+    for dist in (70, 150, None):
+        pk = list(fine)
+        ins = []
+        for i in fidx[3::9]:
+            later = [j for j in fidx if j > i and fine[j].dir == fine[i].dir]
+            if dist is None:
+                ins.append((len(fine), fine[i]))
+            elif len(later) > dist:
+                ins.append((later[dist], fine[i]))
+        for at, p in sorted(ins, key=lambda x: -x[0]):
+            pk.insert(at, p)
+        run_pk(pk, {"layer": "E", "class": cname, "variant": f"late_duplicates_{dist}", "reordered": False})
     # adjacent transpositions and displacements by 2 within a direction
     for dist in (1, 2):
         for a in range(len(data_idx)):
